@@ -3,6 +3,7 @@ package checks
 import (
 	"context"
 	"fmt"
+	"runtime"
 	"strings"
 	"sync"
 	"time"
@@ -145,6 +146,14 @@ func runC05(w *fw.Worker) {
 			return
 		}
 		o := conc.Opts{NSrc: r.Range(2, 4), Skip: r.Chance(15), StaticFirst: r.Chance(15), SlowCB: r.Intn(2)}
+		// some histories start with verification delayed and have EnableVerification called over and over while the
+		// sources report (only values that verify, so that whether verification is on never matters to the model)
+		delayed := r.Chance(15)
+		invPct, illPct := 15, 3
+		if delayed {
+			o.Delay, o.Skip = true, false
+			invPct, illPct = 0, 0
+		}
 		e, err := conc.Start(context.Background(), r.U64(), o, func(e *conc.Env, k int) *conc.Layer {
 			if r.Chance(30) {
 				return nil
@@ -178,6 +187,24 @@ func runC05(w *fw.Worker) {
 		// Events consumer + readers run for the whole history
 		stop := make(chan struct{})
 		var wg sync.WaitGroup
+		if delayed {
+			wg.Add(1)
+			go func() {
+				defer wg.Done()
+				for k := 0; ; k++ {
+					select {
+					case <-stop:
+						return
+					default:
+					}
+					e.D.EnableVerification(ctx)
+					if k%4 == 0 {
+						runtime.Gosched()
+					}
+				}
+			}()
+			w.Count("histories_with_enableverification_called_throughout", 1)
+		}
 		var evMu sync.Mutex
 		var evPtrs []*conc.Cfg
 		var evViewAfter []uint64 // serial read from ViewVersion right after each Events receipt
@@ -297,7 +324,7 @@ func runC05(w *fw.Worker) {
 				for k := 0; k < n; k++ {
 					s := pickSrc(r, prev)
 					prev = s
-					l := e.RandLayer(r, 15, 3)
+					l := e.RandLayer(r, invPct, illPct)
 					if r.Chance(10) {
 						l.Set = [conc.NumFields]bool{} // empty layer
 						l.NegA, l.NegB = false, false
@@ -312,7 +339,7 @@ func runC05(w *fw.Worker) {
 					if st.Verifying && e.Srcs[s] != nil && r.Chance(6) {
 						// the reporter gives up inside Verify; the monitor finishes that update, and the next blocking
 						// report of the same source must be answered for itself
-						al := e.RandLayer(r, 40, 0)
+						al := e.RandLayer(r, invPct*3, 0)
 						abandoned, ares := e.AbandonInVerify(0, s, al)
 						var ans []any
 						for _, guess := range []int{conc.ResNil, conc.ResRejected} {
@@ -379,7 +406,7 @@ func runC05(w *fw.Worker) {
 					go func(s int, rr *fw.Rand, n int) {
 						defer rwg.Done()
 						for k := 0; k < n; k++ {
-							l := e.RandLayer(rr, 10, 0)
+							l := e.RandLayer(rr, invPct*2/3, 0)
 							e.Report(ctx, s+1, s, l, rr.Chance(50))
 							order.Lock()
 							done = append(done, rep{s, l})
